@@ -533,6 +533,11 @@ class C16(PropCheck):
                 # its referent, so a frame reached through it has no origin -- noted in DESIGN.md, not in this space)
                 out.append({"k": "chain", "links": [l for l in chains.rand_links(rng, rng.randint(0, 6)) if l != "await_proxy_gen"], "end": rng.choice(chains.ENDS),
                             "root": rng.choice(chains.ROOTS)})
+            # chains longer than any loop guard, with and without a root hook that re-queues what follows it
+            for n in (105, 130):
+                for hook in (None, "next", "insert"):
+                    for kind in ("await_coro", "agen_asend"):
+                        out.append({"k": "chain", "links": [kind] * n, "end": "trap", "root": "coro", "long": True, **({"hook": hook} if hook else {})})
         except ImportError:
             pass
         return out
